@@ -196,6 +196,36 @@ def shrink(pl: cxx.Pipeline, p: gen_prog.Prog, r: dict[str, Any], rounds: int = 
 	return cur, cur_r
 
 
+def select_cover(rng: random.Random, feats: list[dict[str, int]], n: int, need: int, prefer: list[bool] | None = None) -> tuple[list[int], int]:
+	"""indices of `n` pool members such that every feature occurs in at least `need` of them where the pool (and `n`) allow it, rarest
+	feature first (among the candidates for a feature the `prefer`red ones first); filled up in pool order.
+	-> (indices, number of features that stayed below `need`)"""
+	per: Counter[str] = Counter()
+	for h in feats:
+		per.update(h.keys())
+	have: Counter[str] = Counter()
+	chosen: list[int] = []
+	used: set[int] = set()
+	for feat, _ in sorted(per.items(), key=lambda kv: (kv[1], kv[0])):
+		while have[feat] < need and len(chosen) < n:
+			cands = [i for i, h in enumerate(feats) if i not in used and feat in h]
+			if not cands:
+				break
+			if prefer is not None and any(prefer[i] for i in cands):
+				cands = [i for i in cands if prefer[i]]
+			i = rng.choice(cands)
+			used.add(i)
+			chosen.append(i)
+			have.update(feats[i].keys())
+	for i in range(len(feats)):
+		if len(chosen) >= n:
+			break
+		if i not in used:
+			used.add(i)
+			chosen.append(i)
+	return chosen, sum(1 for f in per if have[f] < need)
+
+
 def load_corpus() -> list[dict[str, Any]]:
 	out = []
 	for fn in sorted(glob.glob(os.path.join(common.CORPUS_DIR, PROP, '*.json'))):
@@ -226,13 +256,21 @@ def search_programs(ctx: Ctx, pl: cxx.Pipeline) -> SearchResult:
 		elif r['status'] == 'vacuous':
 			ctx.notes.append(f"corpus witness {c['_file']} is vacuous: {r.get('why')}")
 
-	# 2. generated programs
+	# 2. generated programs: generating is cheap, transpiling + compiling is not. A pool is generated and the programs that run are
+	# selected so that EVERY construct feature of the generator (for over enumerate / dict views / object views, list and dict comprehensions,
+	# default arguments, every augmented operator, ...) occurs in at least `need` of them, whatever the seed; the rest is filled in pool order
 	n = ctx.scale(40, 600)
+	pool = [gen_prog.generate(random.Random(rng.random()), size=1 + i % 3) for i in range(ctx.scale(1500, 3000))]
+	# (programs free of the known defect classes are preferred for the cover: a failing program costs an attribution, and the fill keeps the others)
+	chosen, uncovered = select_cover(random.Random(rng.random()), [h for _, h in pool], n, need=ctx.scale(2, 6),
+		prefer=[not gen_prog.present_classes(p) for p, _ in pool])
 	progs: list[gen_prog.Prog] = []
-	for i in range(n):
-		p, h = gen_prog.generate(random.Random(rng.random()), size=1 + i % 3)
+	for i in chosen:
+		p, h = pool[i]
 		progs.append(p)
 		hist.update({f'construct:{k}': v for k, v in h.items()})
+	hist['construct-features-in-pool'] = len({k for _, h in pool for k in h})
+	hist['construct-features-below-cover'] = uncovered
 	dicts = [gen_prog.to_dict(p) for p in progs]
 	results = pl.check_many(dicts, per_unit=10)
 	failing: list[tuple[gen_prog.Prog, dict[str, Any]]] = []
@@ -627,7 +665,7 @@ def stream_cpptable(ctx: Ctx, emit_cases_done: list[tuple[dict[str, Any], list[s
 	work = ctx.tmpdir('tranp-verif-cpptable-')
 	chunks = [todo[i:i + 250] for i in range(0, len(todo), 250)]
 
-	def build(args: tuple[int, list[dict[str, Any]]]) -> list[str]:
+	def build(args: tuple[int, list[dict[str, Any]]]) -> list[str | None]:
 		n, chunk = args
 		lines = [GROUPING_PRELUDE, 'int main() {']
 		names: dict[str, str] = {}
@@ -651,10 +689,15 @@ def stream_cpptable(ctx: Ctx, emit_cases_done: list[tuple[dict[str, Any], list[s
 		src = os.path.join(work, f'g{n}.cpp')
 		with open(src, 'w', encoding='utf-8') as f:
 			f.write('\n'.join(lines) + '\n')
-		rc, _, err = cxx.run_cmd(['g++', '-std=c++20', '-O0', '-w', src, '-o', src[:-4]], 300)
+		rc, _, err = cxx.run_cmd(['g++', '-std=c++20', '-O0', '-w', src, '-o', src[:-4]], 600)
+		if rc == -9:
+			return [None] * len(chunk)   # the compiler did not finish within the wall limit: the chunk is skipped and counted, never reported
 		if rc != 0:
 			return [f'g++ rejects the emitted operator text: {err[-300:]}'.replace('\n', ' ')] * len(chunk)
-		outl = cxx.run_cmd([src[:-4]], 60)[1].split('\n')
+		rc, outs, _, why = cxx.run_limited([src[:-4]], 10, 300)
+		if why == 'wall-timeout':
+			return [None] * len(chunk)
+		outl = outs.split('\n')
 		res, k = [], 0
 		for fz in fused:
 			if fz:
@@ -666,8 +709,9 @@ def stream_cpptable(ctx: Ctx, emit_cases_done: list[tuple[dict[str, Any], list[s
 
 	with ThreadPoolExecutor(8) as ex:
 		reals = [r for chunk_res in ex.map(build, list(enumerate(chunks))) for r in chunk_res]
-	cases = [({'expr': d['expr'], 'text': d['text']}, [f"reparse\t{d['enc']}", f"parsew\t{d['enc']}"], [r, r]) for d, r in zip(todo, reals)]
+	cases = [({'expr': d['expr'], 'text': d['text']}, [f"reparse\t{d['enc']}", f"parsew\t{d['enc']}"], [r, r]) for d, r in zip(todo, reals) if r is not None]
 	st = common.correspond('cpptable', cases, 'emit', classify=lambda d: 'regrouped-or-flat')
+	st.histogram['skipped-at-wall-limit'] = sum(1 for r in reals if r is None)
 	st.note = ('g++ -std=c++20 prints its grouping of every emitted core text (operator overloading on a string type); the model prints Prec.parse cppOps (emit n) and the wrapper grammar\'s parseX (toksW n), which must coincide on the core; '
 		'ternary / call forms of the wrapper grammar are validated by value in stream sem (g++ evaluating the real text)')
 	return st
@@ -748,16 +792,18 @@ def stream_sem(ctx: Ctx, emit_cases_done: list[tuple[dict[str, Any], list[str], 
 	with open(path, 'w', encoding='utf-8') as f:
 		f.write('\n'.join(src).replace('-2147483648', '(-2147483647 - 1)') + '\n')
 	rc, _, gxx_err = cxx.run_cmd(['g++', '-std=c++20', '-O0', '-w', '-fsanitize=undefined', '-fno-sanitize-recover=undefined', path, '-o', path[:-4]], 600)
-	rejected = rc != 0
+	rejected = rc != 0 and rc != -9
 
 	run_dl = deadline(ctx, 120, 600)
 
 	def run_one(k: int) -> str | None:
 		if rejected:
 			return 'g++ rejects the unit of emitted operator texts: ' + gxx_err[-300:].replace('\n', ' ').replace('\t', ' ')
-		if past(run_dl):
-			return None   # skipped at the stream's wall deadline (counted)
-		rc1, out1, _ = cxx.run_cmd([path[:-4], str(k)], 20)
+		if rc == -9 or past(run_dl):
+			return None   # skipped at a wall limit (the compiler's, or the stream's deadline): counted, never reported
+		rc1, out1, _, why = cxx.run_limited([path[:-4], str(k)], 5, 120)
+		if why == 'wall-timeout':
+			return None
 		return f'ok {out1.strip()}' if rc1 == 0 and out1.strip() else 'ub'
 
 	with ThreadPoolExecutor(16) as ex:
@@ -803,6 +849,7 @@ class StmtGen:
 		self.closed: list[str] = []
 		self.counters = 0
 		self.fixed: set[str] = set()   # not assignable here: loop variables and what stop / step of an enclosing for read
+		self.loops: list[bool] = []   # enclosing loops, innermost last: may the body `continue` (a while loop whose counter is incremented at the end of the body may not)
 		self.shape: Counter[str] = Counter()
 
 	def visible(self) -> list[str]:
@@ -880,6 +927,15 @@ class StmtGen:
 	def stmt(self, depth: int, ind: int) -> list[str]:
 		r = self.rng
 		pre = '\t' * ind
+		if self.loops and r.random() < 0.14:
+			# break / continue of the innermost loop: bare (what follows in the block is dead code) or at the end of an `if` block that may
+			# have declared names of its own
+			word = 'continue' if self.loops[-1] and r.random() < 0.5 else 'break'
+			if r.random() < 0.25:
+				self.shape[f'{word}:bare'] += 1
+				return [f'{pre}{word}']
+			self.shape[f'{word}:in-if'] += 1
+			return [f'{pre}if {self.bool_expr(1)}:'] + self.block(depth - 1, ind + 1, r.randint(0, 2) if depth > 0 else r.randint(0, 1), tail=[word])
 		k = r.random()
 		if k < 0.12:
 			# augmented assignment: the target must be visible (and assignable here)
@@ -928,7 +984,9 @@ class StmtGen:
 			self.fixed |= reads | {i_name}
 			self.vis.insert(0, [i_name])
 			out = [f"{pre}for {i_name} in range({', '.join(args)}):"]
+			self.loops.append(True)
 			out.extend(self.block(depth - 1, ind + 1, r.randint(1, 3)))
+			self.loops.pop()
 			self.closed.extend(self.vis.pop(0))
 			self.fixed = saved
 			return out
@@ -938,7 +996,17 @@ class StmtGen:
 		self.vis[0].append(k_name)
 		cond = f'{k_name} < {r.randint(0, 4)}' + (f' and {self.bool_expr(1)}' if r.random() < 0.3 else '')
 		out = [f'{pre}{k_name} = 0', f'{pre}while {cond}:']
-		out.extend(self.block(depth - 1, ind + 1, r.randint(1, 3), tail=[f'{k_name} = {k_name} + 1']))
+		step = r.choice([f'{k_name} = {k_name} + 1', f'{k_name} += 1'])
+		head = r.random() < 0.5   # the counter is incremented first: the body may `continue`
+		self.loops.append(head)
+		saved = set(self.fixed)
+		self.fixed |= {k_name}
+		body = self.block(depth - 1, ind + 1, r.randint(1, 3), tail=None if head else [step])
+		self.fixed = saved
+		self.loops.pop()
+		if head:
+			body.insert(0, '\t' * (ind + 1) + step)
+		out.extend(body)
 		return out
 
 	def program(self) -> str:
@@ -966,6 +1034,10 @@ def stmt_encode(tr: cxx.Transpiler, source: str) -> tuple[str, list[str], dict[i
 			return f'A {rn.ids.setdefault(name, len(rn.ids) + 1)} {hx(name)} {hx(ty)} {rn.enc(x.value)}'
 		if kind == 'Return':
 			return f'R {rn.enc(x.return_value)}'
+		if kind == 'Break':
+			return 'K'
+		if kind == 'Continue':
+			return 'C'
 		if kind == 'AugAssign':
 			name = x.receiver.tokens
 			return f'U {rn.ids.setdefault(name, len(rn.ids) + 1)} {hx(name)} {x.operator.tokens[:-1]} {rn.enc(x.value)}'
@@ -1035,9 +1107,10 @@ def stream_stmt(ctx: Ctx) -> Stream:
 	import signal
 
 	def on_alarm(signum: int, frame: Any) -> None:
-		raise TimeoutError('generated core program ran for more than 10 s')
+		raise TimeoutError('generated core program used more than 10 s of CPU time')
 
-	old_handler = signal.signal(signal.SIGALRM, on_alarm)
+	# CPU time (ITIMER_PROF), not wall time: the bound must not depend on the load of the machine
+	old_handler = signal.signal(signal.SIGPROF, on_alarm)
 	try:
 		for d, mp in zip(runnable, model_py):
 			d['model_py'] = mp
@@ -1046,16 +1119,16 @@ def stream_stmt(ctx: Ctx) -> Stream:
 				continue
 			env: dict[str, Any] = {}
 			try:
-				signal.alarm(10)
+				signal.setitimer(signal.ITIMER_PROF, 10)
 				exec(compile(d['source'], '<stmt>', 'exec'), env)  # noqa: S102 - generated core program (ints only, bounded loops)
 				r = env['f'](*d['args'])
 				d['py'] = 'end' if r is None else f'ret {int(r)}'
 			except Exception as e:  # noqa: BLE001
 				d['py'] = f'raised {type(e).__name__}'
 			finally:
-				signal.alarm(0)
+				signal.setitimer(signal.ITIMER_PROF, 0)
 	finally:
-		signal.signal(signal.SIGALRM, old_handler)
+		signal.signal(signal.SIGPROF, old_handler)
 	# g++ on the real emitted functions whose model reading is defined
 	work = ctx.tmpdir('tranp-verif-stmt-')
 	gxx = [(k, d) for k, (d, mc) in enumerate(zip(runnable, model_cpp)) if mc.startswith('cpp=ret')]
@@ -1074,12 +1147,14 @@ def stream_stmt(ctx: Ctx) -> Stream:
 	run_dl = deadline(ctx, 90, 480)
 
 	def run_one(k: int) -> str | None:
+		if rc == -9 or past(run_dl):
+			return None   # skipped at a wall limit (the compiler's, or the stream's deadline): counted, never reported
 		if rc != 0:
 			return 'g++ rejects the unit of emitted functions: ' + gxx_err[-300:].replace('\n', ' ').replace('\t', ' ')
-		if past(run_dl):
+		rc1, out1, _, why = cxx.run_limited([path[:-4], str(k)], 5, 120)
+		if why == 'wall-timeout':
 			return None
-		rc1, out1, _ = cxx.run_cmd([path[:-4], str(k)], 20)
-		return f'cpp=ret {out1.strip()}' if rc1 == 0 and out1.strip() else 'cpp=ub'
+		return f'cpp=ret {out1.strip()}' if rc1 == 0 and out1.strip() else 'cpp=ub'   # the CPU limit = a loop that does not end where the model's does
 
 	with ThreadPoolExecutor(16) as ex:
 		cpp_real = dict(zip([k for k, _ in gxx], ex.map(run_one, [k for k, _ in gxx])))
@@ -1108,7 +1183,7 @@ def stream_stmt(ctx: Ctx) -> Stream:
 	st.histogram['skipped-at-deadline'] = skipped_dl
 	st.histogram['cpp-run-skipped-at-deadline'] = sum(1 for v in cpp_real.values() if v is None)
 	st.histogram['cpp-run'] = len(gxx)
-	st.note = ('generated core programs (assign / augmented assign / return / if-elif-else / bounded while / for over range(1-3 arguments) over int/bool operator expressions; reads visible in the C++ block structure; '
+	st.note = ('generated core programs (assign / augmented assign / return / if-elif-else / bounded while / for over range(1-3 arguments) / break / continue (bare and at the end of an if block) over int/bool operator expressions; reads visible in the C++ block structure; '
 		'targets: visible, fresh, re-declared after a closed block, parameters) through the real App/Py2Cpp: the statement tree tranp built is serialised (declared type '
 		'from Reflections.type_of/to_accessible_name) and the model must reproduce the emitted body lines exactly (stmtemit), CPython\'s result (stmtpy, scopeOK = true) '
 		'and g++ -fsanitize=undefined running the real emitted function (stmtcpp)')
@@ -1161,7 +1236,8 @@ STATEMENTS = {
 	'toyOps_law': 'non-vacuity of the float hypotheses (an interpretation satisfying ModLaw) + an example through agree_full',
 	'fmod_left_type_regression': 'the repaired fmod:left-type (6063966, Ty.acc: the accumulated left type stays floating point): x % a % b with float x is emitted fmod(fmod(x, a), b), is inside agree_full, and the tag check of pyEval never fires on it for a float x and ints a, b',
 	'stmt_decl': 'the model of VarsCollector (one pass, `_merged`: same or enclosing scope) marks as declarations exactly the assignments whose name is not declared in an open C++ block at that point (proved equal to the scoped reading annotV)',
-	'stmt_agree': 'statements core (v = e, v op= e for + - * % & | ^ << >>, return e, if/elif/else, while, for v in range(begin, stop, step) over the operator core, 32-bit ints/bools): under the static condition scopeOK — every read and every augmented-assignment target is visible in the C++ block structure; for a for loop: fresh loop variable, the body assigns neither it nor anything stop/step read, `v < stop` an operator node of the core in which stop needs no parentheses, positive step — if the Python run (one function-level store, range evaluated once, loop variable rebound per iteration) is InSubset and returns r, the C++ reading of the emitted statements (declaration at the first assignment per scope chain, frames pushed/popped at braces and at the for statement, the PASTED loop test `v < stop` and the step re-evaluated per iteration, every emitted token sequence parsed by cppTable) returns r with the same fuel',
+	'stmt_agree': 'statements core (v = e, v op= e for + - * % & | ^ << >>, return e, if/elif/else, while, for v in range(begin, stop, step), break, continue over the operator core, 32-bit ints/bools): under the static condition scopeOK — every read and every augmented-assignment target is visible in the C++ block structure; for a for loop: fresh loop variable, the body assigns neither it nor anything stop/step read, `v < stop` an operator node of the core in which stop needs no parentheses, positive step — if the Python run (one function-level store, range evaluated once, loop variable rebound per iteration) is InSubset and returns r, the C++ reading of the emitted statements (declaration at the first assignment per scope chain, frames pushed/popped at braces and at the for statement, the PASTED loop test `v < stop` and the step re-evaluated per iteration, every emitted token sequence parsed by cppTable; break / continue leave every block up to the innermost loop, ending the lifetime of the names declared in them, continue in a for goes to the increment) returns r with the same fuel',
+	'stmt_forms': 'every translated statement template (assign / declare / aug-assign / return / if / else-if / else / while / for-range heads, break, continue, closing lines), read as C++ by readForm, is the statement form cExec gives the corresponding constructor, with the template variables in the positions emitLines fills (receiver left of =, value right; the for head declares, tests and increments the same symbol from begin / size / step): decide over the generated tables',
 	'stmt_scope_counterexample': 'scopeOK is not vacuous: `if a > 0: v = 1 else: v = 2; return v` is valid Python (returns 1) but the statements the collector logic yields read an undeclared v (the real emitter rejects: finding reject:block-scoped-name)',
 	'range_reevaluated_counterexample': 'the known finding range:args-reevaluated as a fact about the emitted form: `for i in range(0, n, 1): if n < 5: n = n + 1; t = t + 1` — Python iterates twice, the emitted `for (auto i = 0; i < n; i += 1)` five times; scopeOK fails exactly on the clause "the body assigns nothing stop reads"',
 	'range_loopvar_counterexamples': 'the two loop-variable clauses of scopeOK are necessary on the emitted form: a loop variable that is an already declared name is shadowed by `auto i` (python 2, c++ 5; finding range:loopvar-shadowed); a body that assigns the loop variable skips iterations (python 10, c++ 4; finding range:loopvar-assigned)',
@@ -1197,10 +1273,10 @@ def run(ctx: Ctx) -> int:
 		partial={
 			'proved': 'operator level: emitted tokens re-parsed by the C++ grammar (Prec table + wrapper grammar for ?:, calls, members) = Python grouping for every chain-free operator node incl. ternary, in / not in, fmod (group, group_full); '
 				'the emitter\'s precedence table agrees with the C++ grammar table; operator semantics agree inside the subset on ints, bools and abstract floats (sem, agree, sem_full, agree_full); template/ladder totality (ops_total, ladder_eq). '
-				'statement level: which assignment declares (stmt_decl) and agreement of assign / return / if-elif-else / while / for-over-range programs over the operator core on ints/bools under the static condition scopeOK (stmt_agree), each clause of which is proved necessary on the emitted form (stmt_scope_counterexample, range_reevaluated_counterexample, range_loopvar_counterexamples)',
+				'statement level: which assignment declares (stmt_decl) and agreement of assign / augmented assign / return / if-elif-else / while / for-over-range / break / continue programs over the operator core on ints/bools under the static condition scopeOK (stmt_agree), each clause of which is proved necessary on the emitted form (stmt_scope_counterexample, range_reevaluated_counterexample, range_loopvar_counterexamples)',
 			'correspondence_only': 'Model.Emit = real Py2Cpp on operator nodes (stream emit: exact text, tokens, wf, CPython grouping); cppTable and the wrapper grammar = g++\'s grammar (stream cpptable; by value in stream sem); '
 				'pyEval / cEvalX = CPython / g++ on ints, bools, floats (stream sem); Model.EmitStmt = real Py2Cpp body lines, CPython and g++ on generated core programs (stream stmt)',
-			'search_only': 'for loops over lists/dicts/enumerate, break/continue, calls between functions, functions/closures/default args, classes, enums, containers, comprehensions, strings, casts, exceptions, augmented/destructuring assignment, float and bool variables in statements, '
+			'search_only': 'for loops over lists/dicts/enumerate, while-else / for-else, calls between functions, functions/closures/default args, classes, enums, containers, comprehensions, strings, casts, exceptions, augmented/destructuring assignment, float and bool variables in statements, '
 				'acceptance by g++ -std=c++20, never-rejected: generated programs vs CPython',
 			'false_on_current_tree': 'the grouping sentence for comparison chains (group_chain_counterexample; known finding chain-compare); '
 				'never-rejected for names first assigned in a nested block and read after it (stmt_scope_counterexample; finding reject:block-scoped-name); '
@@ -1211,7 +1287,7 @@ def run(ctx: Ctx) -> int:
 			'the domain name of each chain element and the declared type of each assignment are the ones Reflections.type_of / to_domain_name / to_accessible_name gave (type inference is C03\'s subject)',
 			'`in` / `not in` are grouped (call form = a postfix primary) but their C++ value needs containers: Err.unsupported in cEvalX, search only',
 			'floats are abstract in sem_full (no IEEE claim; both languages read over the same F; tranp maps float to C++ float: the search restricts floats to values exactly representable in binary32, stream sem uses double on both sides)',
-			'statements core: variables hold ints; the statement templates (assign/move_assign*.j2, assign/aug_assign.j2, statement/return.j2, flow/if/*.j2, flow/while.j2, flow/for/range.j2) are TRANSLATED on every run (gen_cpp_templates: whole-file skeleton check, head/tail lines as pieces) and interpreted by emitLines; not covered: the is_initializer / is_static / return-self / `std::is_same_v` constexpr branches; loops carry fuel (no claim about non-termination)',
+			'statements core: variables hold ints; the statement templates (assign/move_assign*.j2, assign/aug_assign.j2, statement/return.j2, flow/if/*.j2, flow/while.j2, flow/for/range.j2, statement/break.j2, statement/continue.j2) are TRANSLATED on every run (gen_cpp_templates: whole-file skeleton check, head/tail lines as pieces) and interpreted by emitLines; not covered: the is_initializer / is_static / return-self / `std::is_same_v` constexpr branches; loops carry fuel (no claim about non-termination)',
 		],
 		trusted=['cppTable + the wrapper grammar (conditional-expression, postfix call/member): ISO C++20 expression grammar transcribed (validated against g++ by streams cpptable and sem)',
 			'denotePy / denoteCpp, pyEval / cEvalX, pyExec / cExec: transcriptions of the two language definitions for int/bool/float operators and the statements core (validated against CPython and g++ -fsanitize=undefined by streams sem and stmt)',
